@@ -226,7 +226,7 @@ int main (int argc, char **argv)
 	for (a = 0 ; a < 8 ; a++) for (b = 0 ; b < (vh_thorough ? 4 : 2) ; b++) for (c = 1 ; c <= (vh_thorough ? 6 : 2) ; c++)
 	{	int format = majors [a] | subs [b] ;
 		if (!vh_accepts (format, c, 44100)) continue ;
-		for (k = 0 ; k < (vh_thorough ? 15000 : 1000) ; k++)
+		for (k = 0 ; k < (vh_thorough ? 15000 : 3000) ; k++)
 		{	int mask, late ;
 			if (!vh_case ("%s%s ch=%d combo=%d", vh_fname (format), (format & SF_FORMAT_ENDMASK) ? "/BE" : "", c, k)) continue ;
 			mask = (k < 6) ? (1 << k) : (k < 12 ? 63 : 1 + vh_rint (63)) ; late = (k % 5 == 4) ? (1 << vh_rint (6)) : 0 ;	/* one kind is set after the audio (for the first time, or again) */
